@@ -506,8 +506,9 @@ package ristretto
 
 //@ func (c *Cache) Del(key K)
 //@   requires c == nil || (wfCache(c) && !gcClosed(c.setBuf))
-//@   modifies shardOf(cacheSM(c), khash(c, key)).data[*], cacheSM(c).expiryMap.buckets[*][*], gcChan(c.setBuf)
-//@   ensures [C15] #inert !old(isOpen(c)) ==> gcTail(c.setBuf) == old(gcTail(c.setBuf)) && forall k uint64 :: smHas(cacheSM(c), k) == old(smHas(cacheSM(c), k))
+//@   modifies shardOf(cacheSM(c), khash(c, key)).data[*], cacheSM(c).expiryMap.buckets[*][*], gcChan(c.setBuf), gcCallbacks(c.onExit)
+//@   ensures [C15] #inert !old(isOpen(c)) ==> gcTail(c.setBuf) == old(gcTail(c.setBuf)) && gcCalls(c.onExit) == old(gcCalls(c.onExit)) && forall k uint64 :: smHas(cacheSM(c), k) == old(smHas(cacheSM(c), k))
+//@   ensures [C04,C05] #released old(isOpen(c)) ==> gcCalls(c.onExit) == old(gcCalls(c.onExit))+1 && (old(smHas(cacheSM(c), khash(c, key))) && conflictOK(old(smEntry(cacheSM(c), khash(c, key))), kconf(c, key)) ==> gcCalledWith(c.onExit, old(smEntry(cacheSM(c), khash(c, key)).value)) == old(gcCalledWith(c.onExit, smEntry(cacheSM(c), khash(c, key)).value))+1)
 //@   ensures [C05] #tombstone old(isOpen(c)) ==> gcTail(c.setBuf) == old(gcTail(c.setBuf))+1 && gcAt(c.setBuf, old(gcTail(c.setBuf))) != nil && gcAt(c.setBuf, old(gcTail(c.setBuf))).flag == itemDelete && gcAt(c.setBuf, old(gcTail(c.setBuf))).Key == khash(c, key) && gcAt(c.setBuf, old(gcTail(c.setBuf))).Conflict == kconf(c, key) && gcAt(c.setBuf, old(gcTail(c.setBuf))).wait == nil
 //@   ensures [C05,C02] #removed old(isOpen(c)) && old(smHas(cacheSM(c), khash(c, key))) && conflictOK(old(smEntry(cacheSM(c), khash(c, key))), kconf(c, key)) ==> !smHas(cacheSM(c), khash(c, key))
 //@   ensures [C13] #others forall k uint64 :: k != khash(c, key) ==> smHas(cacheSM(c), k) == old(smHas(cacheSM(c), k)) && sameEntry(smEntry(cacheSM(c), k), old(smEntry(cacheSM(c), k)))
@@ -585,7 +586,9 @@ package ristretto
 
 //@ func (c *Cache) SetWithTTL(key K, value V, cost int64, ttl time.Duration) bool
 //@   requires c == nil || (wfCache(c) && !gcClosed(c.setBuf) && gcCap(c.setBuf) > 0)
-//@   modifies shardOf(cacheSM(c), khash(c, key)).data[*], cacheSM(c).expiryMap.buckets[*], cacheSM(c).expiryMap.buckets[*][*], gcChan(c.setBuf), gcMtot[*]
+//@   modifies shardOf(cacheSM(c), khash(c, key)).data[*], cacheSM(c).expiryMap.buckets[*], cacheSM(c).expiryMap.buckets[*][*], gcChan(c.setBuf), gcMtot[*], gcCallbacks(c.onExit)
+//@   ensures [C04] #rejected-silent !result ==> gcCalls(c.onExit) == old(gcCalls(c.onExit))
+//@   ensures [C02,C04] #exit-previous gcCalls(c.onExit) == old(gcCalls(c.onExit)) || (gcCalls(c.onExit) == old(gcCalls(c.onExit))+1 && old(smHas(cacheSM(c), khash(c, key))) && gcCalledWith(c.onExit, old(smEntry(cacheSM(c), khash(c, key)).value)) == old(gcCalledWith(c.onExit, smEntry(cacheSM(c), khash(c, key)).value))+1 && gcSameRef(smEntry(cacheSM(c), khash(c, key)).value, value))
 //@   ensures [C15] #inert !old(isOpen(c)) ==> !result && gcTail(c.setBuf) == old(gcTail(c.setBuf)) && forall k uint64 :: smHas(cacheSM(c), k) == old(smHas(cacheSM(c), k)) && sameEntry(smEntry(cacheSM(c), k), old(smEntry(cacheSM(c), k)))
 //@   ensures [C07] #negative ttl < 0 ==> !result && gcTail(c.setBuf) == old(gcTail(c.setBuf)) && forall k uint64 :: smHas(cacheSM(c), k) == old(smHas(cacheSM(c), k)) && sameEntry(smEntry(cacheSM(c), k), old(smEntry(cacheSM(c), k)))
 //@   ensures [C13] #others forall k uint64 :: k != khash(c, key) ==> smHas(cacheSM(c), k) == old(smHas(cacheSM(c), k)) && sameEntry(smEntry(cacheSM(c), k), old(smEntry(cacheSM(c), k)))
